@@ -60,6 +60,12 @@ def run_scenario(chk, sc, cfgseed, how, field, axes, scale, ext=6, ext_cut=False
     flds = lattice.Fields(lat, cfgseed, payload="tame", special=special)
     lim, vf = sc["lim"], bool(sc["volfrac"])
     fi = FIELDS.index(field) + 1
+    # concrete names: the plain ones, or -- one configuration in three -- the first and the last field called like the volume
+    # fraction (a liquid volume fraction, last step's copy): names that START like "volFrac" / "vfrac" are other fields
+    names = list(FIELDS)
+    if cfgseed % 3 == 1:
+        names[0], names[3] = ["volFrac_liquid", "vfrac_old", "VolFrac"][(cfgseed // 3) % 3], ["volFrac2", "volfrac", "volFracs"][(cfgseed // 9) % 3]
+    field = names[fi - 1]
     a1, a2, a3 = axes
     if cfgseed % 2 == 1:
         # NON-INTERFERENCE: every cell the requirement does NOT count (covered by a finer selected level, or on a level above
@@ -76,7 +82,7 @@ def run_scenario(chk, sc, cfgseed, how, field, axes, scale, ext=6, ext_cut=False
                     counted[tuple(sl)] = True
             for f in sorted({fi, 3} if vf else {fi}):
                 flds.level(l, f)[~counted] = bad
-    ap = lat.ap("A", FIELDS, files_of=lambda lv, b: rng.randint(1, 3), shuffle=lambda lv, f, v: rng.sample(v, len(v)))
+    ap = lat.ap("A", names, files_of=lambda lv, b: rng.randint(1, 3), shuffle=lambda lv, f, v: rng.sample(v, len(v)))
     d = chk.tmp_reuse()
     os.makedirs(d)
     src = os.path.join(d, "plt")
